@@ -2,7 +2,7 @@
 import random
 import re
 
-from harness import common, core, gens, schemes, text, vers
+from harness import common, core, dense, gens, schemes, text, vers
 
 # extra grammar for the reference domains: shapes the per-class generators produce rarely
 EXTRA = {
@@ -171,6 +171,7 @@ def run(ctx):
         if len(values) > cap:
             values = values[:nextra] + r.sample(values[nextra:], cap - nextra)
         pairs = schemes.pairs_from(r, values, npairs) + gens.equal_variant_pairs(r, cls, values[:200], npairs // 5)
+        pairs = dense.pairs(r, cls, 5 if ctx.tier == "quick" else 50, 600 if ctx.tier == "quick" else 8000) + pairs   # same base, small variations (harness/dense.py)
         # all pairs of the hand-written shapes
         head = values[:nextra]
         pairs += [(a, b) for a in head for b in head]
